@@ -291,3 +291,559 @@ theorem linesOf_eq_sepLines (c : List Nat) (h : noLoneCR c = true) (hne : c ≠ 
       exact hcd ⟨rfl, h.1⟩
     rw [linesOf_plain _ _ _ h10 h13, ih (noLoneCR_tail _ _ _ h) (by simp)]
     simp [sepLines, hcd, h10]
+
+/-! ### Part C: the regex scan of iter_splitlines
+`E` is what `Generated.lineEndings` must be (`C19.lineEndings_exact` in Props, re-proved on every run). -/
+
+def E : List (List Nat) := [[13, 10], [10], [11], [12], [13], [133], [8232], [8233]]
+
+def single (c : Nat) : Bool := c == 10 || c == 11 || c == 12 || c == 133 || c == 8232 || c == 8233
+
+theorem firstMatch_E_cr_lf (cs : List Nat) : firstMatch E (13 :: 10 :: cs) = some ([13, 10], cs) := by
+  simp [E, firstMatch, stripPrefix?]
+
+theorem firstMatch_E_cr (cs : List Nat) (h : cs.head? ≠ some 10) : firstMatch E (13 :: cs) = some ([13], cs) := by
+  cases cs with
+  | nil => simp [E, firstMatch, stripPrefix?]
+  | cons d ds =>
+    have : d ≠ 10 := by simpa using h
+    have : ¬ 10 = d := fun h => this h.symm
+    simp [E, firstMatch, stripPrefix?, this]
+
+theorem firstMatch_E_single (c : Nat) (cs : List Nat) (h : single c = true) : firstMatch E (c :: cs) = some ([c], cs) := by
+  simp [single] at h
+  rcases h with ((((rfl | rfl) | rfl) | rfl) | rfl) | rfl <;> simp [E, firstMatch, stripPrefix?]
+
+theorem firstMatch_E_none (c : Nat) (cs : List Nat) (h : lineBreakChar c = false) : firstMatch E (c :: cs) = none := by
+  simp [lineBreakChar] at h
+  obtain ⟨⟨⟨⟨⟨⟨h1, h2⟩, h3⟩, h4⟩, h5⟩, h6⟩, h7⟩ := h
+  have e1 : ¬ 10 = c := fun h => h1 h.symm
+  have e2 : ¬ 11 = c := fun h => h2 h.symm
+  have e3 : ¬ 12 = c := fun h => h3 h.symm
+  have e4 : ¬ 13 = c := fun h => h4 h.symm
+  have e5 : ¬ 133 = c := fun h => h5 h.symm
+  have e6 : ¬ 8232 = c := fun h => h6 h.symm
+  have e7 : ¬ 8233 = c := fun h => h7 h.symm
+  simp [E, firstMatch, stripPrefix?, *]
+
+theorem lineBreakChar_cases (c : Nat) : lineBreakChar c = (c == 13 || single c) := by
+  unfold lineBreakChar single; ac_rfl
+
+theorem strBreak_eq (c : Nat) : strBreak c = (lineBreakChar c || isFS c) := by
+  unfold strBreak lineBreakChar isFS; ac_rfl
+
+/-- what the head-of-text match looks like: (sep, rest) with `c :: cs = sep ++ rest` -/
+inductive HeadMatch : Nat → List Nat → List Nat → List Nat → Prop
+  | crlf (cs : List Nat) : HeadMatch 13 (10 :: cs) [13, 10] cs
+  | cr (cs : List Nat) (h : cs.head? ≠ some 10) : HeadMatch 13 cs [13] cs
+  | single (c : Nat) (cs : List Nat) (h : single c = true) : HeadMatch c cs [c] cs
+
+theorem firstMatch_E_spec (c : Nat) (cs : List Nat) :
+    (lineBreakChar c = false ∧ firstMatch E (c :: cs) = none) ∨
+    (∃ sep rest, firstMatch E (c :: cs) = some (sep, rest) ∧ HeadMatch c cs sep rest) := by
+  cases hb : lineBreakChar c with
+  | false => exact Or.inl ⟨rfl, firstMatch_E_none c cs hb⟩
+  | true =>
+    right
+    rw [lineBreakChar_cases] at hb
+    by_cases h13 : c = 13
+    · subst h13
+      by_cases hh : cs.head? = some 10
+      · cases cs with
+        | nil => simp at hh
+        | cons d ds =>
+          have : d = 10 := by simpa using hh
+          subst this
+          exact ⟨_, _, firstMatch_E_cr_lf ds, .crlf ds⟩
+      · exact ⟨_, _, firstMatch_E_cr cs hh, .cr cs hh⟩
+    · have hs : single c = true := by simpa [h13] using hb
+      exact ⟨_, _, firstMatch_E_single c cs hs, .single c cs hs⟩
+
+theorem HeadMatch.eq {c cs sep rest} (h : HeadMatch c cs sep rest) : c :: cs = sep ++ rest := by
+  cases h <;> rfl
+
+theorem HeadMatch.mem {c cs sep rest} (h : HeadMatch c cs sep rest) : sep ∈ E := by
+  cases h with
+  | crlf => simp [E]
+  | cr => simp [E]
+  | single c cs h =>
+    simp [C19.single] at h
+    rcases h with ((((rfl | rfl) | rfl) | rfl) | rfl) | rfl <;> simp [E]
+
+theorem HeadMatch.lt {c cs sep rest} (h : HeadMatch c cs sep rest) : rest.length < (c :: cs).length := by
+  cases h <;> simp <;> omega
+
+theorem HeadMatch.lastBreak {c cs sep rest} (h : HeadMatch c cs sep rest) : lastIs lineBreakChar sep = true := by
+  cases h with
+  | crlf => decide
+  | cr => decide
+  | single c cs h => simp [lastIs, lineBreakChar_cases, h]
+
+theorem HeadMatch.split {c cs sep rest} (h : HeadMatch c cs sep rest) :
+    pySplitlines (c :: cs) = [] :: pySplitlines rest := by
+  unfold pySplitlines
+  cases h with
+  | crlf => simp [aux_cons, strBreak]
+  | cr cs h =>
+    rw [aux_cons]
+    simp only [Bool.false_and, Bool.false_eq_true, if_false]
+    rw [aux_flag_irrel _ _ _ h]
+    simp [strBreak]
+  | single c cs h =>
+    have hb : strBreak c = true := by rw [strBreak_eq, lineBreakChar_cases, h]; simp
+    have h13 : c ≠ 13 := by
+      intro h13; subst h13; simp [C19.single] at h
+    have h13' : (c == 13) = false := by simp [h13]
+    rw [aux_cons]
+    simp [hb, h13']
+
+
+def NoFS (l : List Nat) : Prop := ∀ c ∈ l, isFS c = false
+
+theorem splitFirst_nil : splitFirst E [] = none := by simp [splitFirst]
+
+theorem splitFirst_hit (alts : List (List Nat)) (c : Nat) (cs sep rest : List Nat)
+    (h : firstMatch alts (c :: cs) = some (sep, rest)) :
+    splitFirst alts (c :: cs) = some ([], sep, rest) := by
+  rw [splitFirst, h]
+
+theorem splitFirst_miss_some (alts : List (List Nat)) (c : Nat) (cs l sep rest : List Nat)
+    (h : firstMatch alts (c :: cs) = none) (h2 : splitFirst alts cs = some (l, sep, rest)) :
+    splitFirst alts (c :: cs) = some (c :: l, sep, rest) := by
+  rw [splitFirst, h, h2]
+
+theorem splitFirst_miss_none (alts : List (List Nat)) (c : Nat) (cs : List Nat)
+    (h : firstMatch alts (c :: cs) = none) (h2 : splitFirst alts cs = none) :
+    splitFirst alts (c :: cs) = none := by
+  rw [splitFirst, h, h2]
+
+theorem splitFirst_none (s : List Nat) (h : splitFirst E s = none) :
+    ∀ c ∈ s, lineBreakChar c = false := by
+  induction s with
+  | nil => intro c hc; cases hc
+  | cons c cs ih =>
+    rcases firstMatch_E_spec c cs with ⟨hb, hn⟩ | ⟨sep, rest, hs, _⟩
+    · cases hcs : splitFirst E cs with
+      | some x =>
+        obtain ⟨l', sep', rest'⟩ := x
+        rw [splitFirst_miss_some _ _ _ _ _ _ hn hcs] at h; simp at h
+      | none =>
+        intro d hd
+        rcases List.mem_cons.mp hd with rfl | hd
+        · exact hb
+        · exact ih hcs d hd
+    · rw [splitFirst_hit _ _ _ _ _ hs] at h; simp at h
+
+theorem splitFirst_some (s l sep rest : List Nat) (h : splitFirst E s = some (l, sep, rest)) :
+    s = l ++ sep ++ rest ∧ (∀ c ∈ l, lineBreakChar c = false) ∧ sep ∈ E ∧
+    lastIs lineBreakChar sep = true ∧ rest.length < s.length ∧
+    (NoFS l → pySplitlines s = l :: pySplitlines rest) := by
+  induction s generalizing l with
+  | nil => simp [splitFirst_nil] at h
+  | cons c cs ih =>
+    rcases firstMatch_E_spec c cs with ⟨hb, hn⟩ | ⟨sep', rest', hs, hm⟩
+    · cases hcs : splitFirst E cs with
+      | none => rw [splitFirst_miss_none _ _ _ hn hcs] at h; simp at h
+      | some x =>
+        obtain ⟨l', sep'', rest''⟩ := x
+        rw [splitFirst_miss_some _ _ _ _ _ _ hn hcs] at h
+        simp only [Option.some.injEq, Prod.mk.injEq] at h
+        obtain ⟨rfl, rfl, rfl⟩ := h
+        obtain ⟨h1, h2, h3, h4, h5, h6⟩ := ih l' hcs
+        refine ⟨by rw [h1]; simp, ?_, h3, h4, by simp; omega, ?_⟩
+        · intro d hd
+          rcases List.mem_cons.mp hd with rfl | hd
+          · exact hb
+          · exact h2 d hd
+        · intro hfs
+          have hfs' : NoFS l' := fun d hd => hfs d (by simp [hd])
+          have hc : strBreak c = false := by
+            rw [strBreak_eq, hb, hfs c (by simp)]; rfl
+          have := h6 hfs'
+          unfold pySplitlines at this ⊢
+          rw [aux_cons]
+          simp [hc, this, consHead]
+    · rw [splitFirst_hit _ _ _ _ _ hs] at h
+      simp only [Option.some.injEq, Prod.mk.injEq] at h
+      obtain ⟨rfl, rfl, rfl⟩ := h
+      exact ⟨by simpa using hm.eq, fun _ h => (by cases h), hm.mem, hm.lastBreak, hm.lt, fun _ => hm.split⟩
+
+theorem scan_none (alts : List (List Nat)) (n : Nat) (s : List Nat) (h : splitFirst alts s = none) :
+    scan alts (n + 1) s = if s = [] then [] else [(s, [])] := by
+  rw [scan, h]
+
+theorem scan_some (alts : List (List Nat)) (n : Nat) (s l sep rest : List Nat)
+    (h : splitFirst alts s = some (l, sep, rest)) :
+    scan alts (n + 1) s = (l, sep) :: (if rest = [] then [([], [])] else scan alts n rest) := by
+  rw [scan, h]
+
+theorem strBreak_10 : strBreak 10 = true := by decide
+
+theorem scan_lines (n : Nat) (s : List Nat) (hn : s.length ≤ n) (hfs : NoFS s) :
+    (scan E (n + 1) s).map (·.1) = pySplitlines s ++ (if endsWithBreak s then [[]] else []) := by
+  induction n generalizing s with
+  | zero =>
+    have : s = [] := List.length_eq_zero_iff.mp (by omega)
+    subst this
+    rw [scan_none _ _ _ splitFirst_nil]
+    simp [pySplitlines, aux_nil, endsWithBreak, lastIs]
+  | succ n ih =>
+    cases hsf : splitFirst E s with
+    | none =>
+      have hnb := splitFirst_none s hsf
+      rw [scan_none _ _ _ hsf]
+      have he : endsWithBreak s = false := lastIs_false_of_all _ _ hnb
+      rw [he]
+      by_cases hs : s = []
+      · subst hs; simp [pySplitlines, aux_nil]
+      · have hnb' : NoBrk strBreak s := fun c hc => by rw [strBreak_eq, hnb c hc, hfs c hc]; rfl
+        simp [hs, pySplitlines, aux_noBrk strBreak strBreak_10 s hs hnb' false]
+    | some x =>
+      obtain ⟨l, sep, rest⟩ := x
+      obtain ⟨h1, h2, h3, h4, h5, h6⟩ := splitFirst_some s l sep rest hsf
+      rw [scan_some _ _ _ _ _ _ hsf]
+      have hfl : NoFS l := fun c hc => hfs c (by rw [h1]; simp [hc])
+      have hfr : NoFS rest := fun c hc => hfs c (by rw [h1]; simp [hc])
+      have hsep : sep ≠ [] := by intro h; subst h; simp [lastIs] at h4
+      rw [h6 hfl]
+      by_cases hr : rest = []
+      · subst hr
+        have he : endsWithBreak s = true := by
+          rw [h1]; simp only [List.append_nil]
+          unfold endsWithBreak
+          rw [lastIs_append _ _ _ hsep, h4]
+        simp [he, pySplitlines, aux_nil]
+      · have he : endsWithBreak s = endsWithBreak rest := by
+          rw [h1]; unfold endsWithBreak; rw [lastIs_append _ _ _ hr]
+        simp only [hr, if_false, List.map_cons, he]
+        rw [ih rest (by omega) hfr]
+        simp
+
+theorem scan_pieces (n : Nat) (s : List Nat) (hn : s.length ≤ n) :
+    (scan E (n + 1) s).flatMap (fun p => p.1 ++ p.2) = s ∧
+    ∀ p ∈ scan E (n + 1) s, (∀ c ∈ p.1, lineBreakChar c = false) ∧ (p.2 = [] ∨ p.2 ∈ E) := by
+  induction n generalizing s with
+  | zero =>
+    have : s = [] := List.length_eq_zero_iff.mp (by omega)
+    subst this
+    rw [scan_none _ _ _ splitFirst_nil]
+    simp
+  | succ n ih =>
+    cases hsf : splitFirst E s with
+    | none =>
+      have hnb := splitFirst_none s hsf
+      rw [scan_none _ _ _ hsf]
+      by_cases hs : s = []
+      · subst hs; simp
+      · simp only [hs, if_false, List.flatMap_cons, List.flatMap_nil, List.append_nil, List.mem_singleton]
+        refine ⟨trivial, ?_⟩
+        rintro p rfl
+        exact ⟨hnb, Or.inl rfl⟩
+    | some x =>
+      obtain ⟨l, sep, rest⟩ := x
+      obtain ⟨h1, h2, h3, h4, h5, h6⟩ := splitFirst_some s l sep rest hsf
+      rw [scan_some _ _ _ _ _ _ hsf]
+      by_cases hr : rest = []
+      · subst hr
+        simp only [if_true, List.flatMap_cons, List.flatMap_nil, List.append_nil, List.mem_cons]
+        refine ⟨by rw [h1]; simp, ?_⟩
+        rintro p (rfl | rfl | h)
+        · exact ⟨h2, Or.inr h3⟩
+        · exact ⟨fun _ h => (by cases h), Or.inl rfl⟩
+        · cases h
+      · obtain ⟨i1, i2⟩ := ih rest (by omega)
+        simp only [hr, if_false, List.flatMap_cons, List.mem_cons]
+        refine ⟨by rw [i1, h1], ?_⟩
+        rintro p (rfl | h)
+        · exact ⟨h2, Or.inr h3⟩
+        · exact i2 p h
+
+
+/-! ### Part D: JSONLIterator -/
+
+variable {α ε : Type}
+
+theorem consume_nil (parse : List Nat → Except ε α) (ig : Bool) : consume parse ig [] = ([], none) := by
+  simp [consume]
+
+theorem consume_ignore (parse : List Nat → Except ε α) (ls : List (List Nat)) :
+    consume parse true ls = (ls.filterMap (objOf parse), none) := by
+  induction ls with
+  | nil => simp [consume]
+  | cons l ls ih =>
+    rw [consume]
+    by_cases hb : lstrip l = []
+    · simp [hb, ih, objOf]
+    · simp only [hb, if_false]
+      cases hp : parse (lstrip l) with
+      | ok v => simp [ih, objOf, hb, hp]
+      | error e => simp [ih, objOf, hb, hp]
+
+/-- `x` is `y` with possibly its line break still attached -/
+def Rel (x y : List Nat) : Prop := x = y ∨ x = y ++ [10] ∨ x = y ++ [13, 10]
+
+/-- lists related element by element -/
+inductive RelL : List (List Nat) → List (List Nat) → Prop
+  | nil : RelL [] []
+  | cons {x y xs ys} (h : Rel x y) (t : RelL xs ys) : RelL (x :: xs) (y :: ys)
+
+theorem lstrip_append_ws (y e : List Nat) (he : ∀ c ∈ e, pyWs c = true) :
+    (lstrip y = [] ∧ lstrip (y ++ e) = []) ∨ (lstrip y ≠ [] ∧ lstrip (y ++ e) = lstrip y ++ e) := by
+  induction y with
+  | nil =>
+    left
+    refine ⟨rfl, ?_⟩
+    simp only [List.nil_append, lstrip]
+    induction e with
+    | nil => rfl
+    | cons a as iha =>
+      have ha : pyWs a = true := he a (by simp)
+      simp only [List.dropWhile_cons, ha, if_true]
+      exact iha (fun c hc => he c (by simp [hc]))
+  | cons c cs ih =>
+    by_cases hc : pyWs c = true
+    · simp only [lstrip, List.cons_append, List.dropWhile_cons, hc, if_true] at ih ⊢
+      exact ih
+    · right
+      simp [lstrip, List.dropWhile_cons, hc]
+
+theorem objOf_rel (parse : List Nat → Except ε α) (hp : IgnoresBreak parse) (x y : List Nat)
+    (h : Rel x y) : objOf parse x = objOf parse y := by
+  have key : ∀ e : List Nat, (∀ c ∈ e, pyWs c = true) → (∀ z, parse (z ++ e) = parse z) →
+      objOf parse (y ++ e) = objOf parse y := by
+    intro e he hpe
+    rcases lstrip_append_ws y e he with ⟨h1, h2⟩ | ⟨h1, h2⟩
+    · simp [objOf, h1, h2]
+    · have : lstrip y ++ e ≠ [] := by simp [h1]
+      simp [objOf, h1, h2, this, hpe]
+  rcases h with rfl | rfl | rfl
+  · rfl
+  · exact key [10] (by decide) (fun z => (hp z).1)
+  · exact key [13, 10] (by decide) (fun z => (hp z).2)
+
+theorem filterMap_rel (parse : List Nat → Except ε α) (hp : IgnoresBreak parse)
+    (xs ys : List (List Nat)) (h : RelL xs ys) :
+    xs.filterMap (objOf parse) = ys.filterMap (objOf parse) := by
+  induction h with
+  | nil => rfl
+  | cons hxy _ ih => simp [List.filterMap_cons, objOf_rel parse hp _ _ hxy, ih]
+
+theorem rel_consHead (c : Nat) (xs ys : List (List Nat)) (h : RelL xs ys) :
+    RelL (consHead c xs) (consHead c ys) := by
+  cases h with
+  | nil => exact .cons (Or.inl rfl) .nil
+  | cons hxy hrest =>
+    refine .cons ?_ hrest
+    rcases hxy with rfl | rfl | rfl
+    · exact Or.inl rfl
+    · exact Or.inr (Or.inl rfl)
+    · exact Or.inr (Or.inr rfl)
+
+/-- text-mode iteration yields the `splitlines` lines, with `\n` where a break was -/
+theorem fileLinesT_rel (f : Bool) (c : List Nat) :
+    RelL (fileLinesT f c) (splitlinesAux bytesBreak f c) := by
+  induction c generalizing f with
+  | nil => rw [fileLinesT, aux_nil]; exact .nil
+  | cons d ds ih =>
+    rw [fileLinesT, aux_cons]
+    by_cases h1 : (f && d == 10) = true
+    · simp only [h1, if_true]; exact ih false
+    · have h1' : (f && d == 10) = false := by simpa using h1
+      simp only [h1', Bool.false_eq_true, if_false]
+      by_cases hb : bytesBreak d = true
+      · simp only [hb, if_true]
+        exact .cons (Or.inr (Or.inl rfl)) (ih _)
+      · simp only [hb, if_false]
+        exact rel_consHead _ _ _ (ih false)
+
+theorem fileLinesB_ne_nil (c : Nat) (cs : List Nat) : fileLinesB (c :: cs) ≠ [] := by
+  rw [fileLinesB]; split
+  · simp
+  · exact consHead_ne_nil _ _
+
+/-- binary iteration, padded with the empty last piece that `split` semantics has -/
+def fileLinesB' (c : List Nat) : List (List Nat) :=
+  fileLinesB c ++ (if c = [] ∨ endsNL c = true then [[]] else [])
+
+theorem fileLinesB'_rel (c : List Nat) (h : noLoneCR c = true) : RelL (fileLinesB' c) (sepLines c) := by
+  induction c using sepLines.induct with
+  | case1 => exact .cons (Or.inl rfl) .nil
+  | case2 => exact .cons (Or.inr (Or.inl rfl)) (.cons (Or.inl rfl) .nil)
+  | case3 c h10 =>
+    have : fileLinesB' [c] = [[c]] := by
+      simp [fileLinesB', fileLinesB, h10, consHead, endsNL, lastIs, isNL]
+    rw [this]
+    simp only [sepLines, h10, if_false]
+    exact .cons (Or.inl rfl) .nil
+  | case4 c d cs hcd ih =>
+    obtain ⟨rfl, rfl⟩ := hcd
+    have h' : noLoneCR cs = true := by
+      cases cs with
+      | nil => rfl
+      | cons e es => exact noLoneCR_tail _ _ _ (noLoneCR_tail _ _ _ h)
+    have : fileLinesB' (13 :: 10 :: cs) = [13, 10] :: fileLinesB' cs := by
+      unfold fileLinesB'
+      cases cs with
+      | nil => simp [fileLinesB, consHead, endsNL, lastIs, isNL]
+      | cons e es => simp [fileLinesB, consHead, endsNL_cons_cons]
+    rw [this]
+    simp only [sepLines, and_self, if_true]
+    exact .cons (Or.inr (Or.inr rfl)) (ih h')
+  | case5 d cs _ ih =>
+    have : fileLinesB' (10 :: d :: cs) = [10] :: fileLinesB' (d :: cs) := by
+      unfold fileLinesB'
+      simp [fileLinesB, endsNL_cons_cons]
+    rw [this]
+    simp only [sepLines]
+    exact .cons (Or.inr (Or.inl rfl)) (ih (noLoneCR_tail _ _ _ h))
+  | case6 c d cs hcd h10 ih =>
+    have : fileLinesB' (c :: d :: cs) = consHead c (fileLinesB' (d :: cs)) := by
+      unfold fileLinesB'
+      rw [consHead_append _ _ _ (fileLinesB_ne_nil d cs)]
+      simp [fileLinesB.eq_2 c, h10, endsNL_cons_cons]
+    rw [this]
+    simp only [sepLines, hcd, h10, if_false]
+    exact rel_consHead _ _ _ (ih (noLoneCR_tail _ _ _ h))
+
+theorem objOf_nil (parse : List Nat → Except ε α) : objOf parse [] = none := by
+  simp [objOf, lstrip]
+
+theorem filterMap_fileLinesB' (parse : List Nat → Except ε α) (c : List Nat) :
+    (fileLinesB' c).filterMap (objOf parse) = (fileLinesB c).filterMap (objOf parse) := by
+  unfold fileLinesB'
+  split <;> simp [List.filterMap_append, objOf_nil]
+
+theorem filterMap_linesOf (parse : List Nat → Except ε α) (c : List Nat) :
+    (linesOf c).filterMap (objOf parse) = (bytesSplitlines c).filterMap (objOf parse) := by
+  unfold linesOf
+  split <;> simp [List.filterMap_append, objOf_nil]
+
+/-- a line that does not stop a strict (`ignore_errors=False`) iteration: blank or decodable -/
+def OkLine (parse : List Nat → Except ε α) (l : List Nat) : Prop :=
+  lstrip l = [] ∨ ∃ v, parse (lstrip l) = .ok v
+
+def AllOk (parse : List Nat → Except ε α) (ls : List (List Nat)) : Prop := ∀ l ∈ ls, OkLine parse l
+
+theorem consume_strict_of_allOk (parse : List Nat → Except ε α) (ls : List (List Nat))
+    (h : AllOk parse ls) : consume parse false ls = consume parse true ls := by
+  induction ls with
+  | nil => simp [consume]
+  | cons l ls ih =>
+    have ih := ih (fun x hx => h x (by simp [hx]))
+    rw [consume, consume]
+    rcases h l (by simp) with hb | ⟨v, hv⟩
+    · simp [hb, ih]
+    · by_cases hb : lstrip l = []
+      · simp [hb, ih]
+      · simp [hb, hv, ih]
+
+theorem allOk_of_consume_strict (parse : List Nat → Except ε α) (ls : List (List Nat))
+    (h : (consume parse false ls).2 = none) : AllOk parse ls := by
+  induction ls with
+  | nil => intro l hl; cases hl
+  | cons l ls ih =>
+    rw [consume] at h
+    by_cases hb : lstrip l = []
+    · simp only [hb, if_true] at h
+      intro x hx
+      rcases List.mem_cons.mp hx with rfl | hx
+      · exact Or.inl hb
+      · exact ih h x hx
+    · simp only [hb, if_false] at h
+      cases hp : parse (lstrip l) with
+      | ok v =>
+        rw [hp] at h
+        intro x hx
+        rcases List.mem_cons.mp hx with rfl | hx
+        · exact Or.inr ⟨v, hp⟩
+        · exact ih h x hx
+      | error e => rw [hp] at h; simp at h
+
+theorem okLine_rel (parse : List Nat → Except ε α) (hp : IgnoresBreak parse) (x y : List Nat)
+    (h : Rel x y) : OkLine parse x ↔ OkLine parse y := by
+  have key : ∀ e : List Nat, (∀ c ∈ e, pyWs c = true) → (∀ z, parse (z ++ e) = parse z) →
+      (OkLine parse (y ++ e) ↔ OkLine parse y) := by
+    intro e he hpe
+    rcases lstrip_append_ws y e he with ⟨h1, h2⟩ | ⟨h1, h2⟩
+    · simp [OkLine, h1, h2]
+    · simp [OkLine, h1, h2, hpe]
+  rcases h with rfl | rfl | rfl
+  · rfl
+  · exact key [10] (by decide) (fun z => (hp z).1)
+  · exact key [13, 10] (by decide) (fun z => (hp z).2)
+
+theorem allOk_rel (parse : List Nat → Except ε α) (hp : IgnoresBreak parse)
+    (xs ys : List (List Nat)) (h : RelL xs ys) : AllOk parse xs ↔ AllOk parse ys := by
+  induction h with
+  | nil => rfl
+  | cons hxy _ ih =>
+    simp only [AllOk, List.mem_cons, forall_eq_or_imp] at ih ⊢
+    rw [okLine_rel parse hp _ _ hxy, ih]
+
+theorem okLine_nil (parse : List Nat → Except ε α) : OkLine parse [] := Or.inl rfl
+
+theorem allOk_append_nil (parse : List Nat → Except ε α) (xs : List (List Nat)) (b : Bool) :
+    AllOk parse (xs ++ (if b then [[]] else [])) ↔ AllOk parse xs := by
+  cases b
+  · simp
+  · simp only [AllOk, if_true, List.mem_append, List.mem_singleton]
+    constructor
+    · intro h l hl; exact h l (Or.inl hl)
+    · intro h l hl
+      rcases hl with hl | rfl
+      · exact h l hl
+      · exact okLine_nil parse
+
+theorem allOk_reverse (parse : List Nat → Except ε α) (xs : List (List Nat)) :
+    AllOk parse xs.reverse ↔ AllOk parse xs := by
+  simp [AllOk]
+
+
+/-! ### extras -/
+
+theorem splitFirst_none_of (s : List Nat) (h : ∀ c ∈ s, lineBreakChar c = false) :
+    splitFirst E s = none := by
+  induction s with
+  | nil => exact splitFirst_nil
+  | cons c cs ih =>
+    exact splitFirst_miss_none _ _ _ (firstMatch_E_none c cs (h c (by simp)))
+      (ih (fun d hd => h d (by simp [hd])))
+
+/-- no line produced by `splitlines` contains a break character -/
+theorem aux_all_noBrk (brk : Nat → Bool) (f : Bool) (s : List Nat) :
+    ∀ l ∈ splitlinesAux brk f s, NoBrk brk l := by
+  induction s generalizing f with
+  | nil => intro l hl; simp [aux_nil] at hl
+  | cons c cs ih =>
+    rw [aux_cons]
+    by_cases h1 : (f && c == 10) = true
+    · simp only [h1, if_true]; exact ih false
+    · have h1' : (f && c == 10) = false := by simpa using h1
+      simp only [h1', Bool.false_eq_true, if_false]
+      by_cases hb : brk c = true
+      · simp only [hb, if_true]
+        intro l hl
+        rcases List.mem_cons.mp hl with rfl | hl
+        · intro d hd; cases hd
+        · exact ih _ l hl
+      · have hb' : brk c = false := by simpa using hb
+        simp only [hb', Bool.false_eq_true, if_false]
+        intro l hl
+        cases hs : splitlinesAux brk false cs with
+        | nil =>
+          rw [hs] at hl
+          simp [consHead] at hl
+          subst hl
+          intro d hd
+          simp at hd; subst hd; exact hb'
+        | cons l0 ls =>
+          rw [hs] at hl
+          simp only [consHead, List.mem_cons] at hl
+          rcases hl with rfl | hl
+          · intro d hd
+            rcases List.mem_cons.mp hd with rfl | hd
+            · exact hb'
+            · exact ih false l0 (by rw [hs]; simp) d hd
+          · exact ih false l (by rw [hs]; simp [hl])
+
+end C19
